@@ -342,4 +342,92 @@ theorem rmImm8_formOk (ctx : Spec.X86.Ctx) (rule : Rule) (opcode d r0 : BitVec 3
         rw [← hrb]; simp [fix1, e1, e2]
       exact regOkB_plain k0 _ _ p h (by rw [e])
 
+/-! ### immediates of 16 / 32 bits and sign-extended immediates -/
+
+/-- the encoder's immediate bytes are the little-endian bytes the monitor expects -/
+theorem emitImmediate_leBytes (x : BitVec 64) (n : Nat) : emitImmediate x n = leBytes x.toNat n := by
+  induction n generalizing x with
+  | zero => rfl
+  | succ n ih =>
+    simp only [emitImmediate, leBytes, ih]
+    have e1 : (x >>> 8).toNat = x.toNat / 256 := by simp [BitVec.toNat_ushiftRight, Nat.shiftRight_eq_div_pow]
+    have e2 : (x.truncate 8 : BitVec 8) = BitVec.ofNat 8 x.toNat := by
+      apply BitVec.eq_of_toNat_eq; simp [BitVec.truncate, BitVec.toNat_setWidth]
+    rw [e1, e2]
+
+theorem emitImmediate_sext32 (v : BitVec 64) : emitImmediate (signExtendInt32 v) 4 = emitImmediate v 4 := by
+  simp only [emitImmediate, signExtendInt32]
+  have e0 : BitVec.truncate 8 (BitVec.signExtend 64 (BitVec.truncate 32 v)) = BitVec.truncate 8 v := by bv_decide
+  have e1 : BitVec.truncate 8 (BitVec.signExtend 64 (BitVec.truncate 32 v) >>> 8) = BitVec.truncate 8 (v >>> 8) := by bv_decide
+  have e2 : BitVec.truncate 8 (BitVec.signExtend 64 (BitVec.truncate 32 v) >>> 8 >>> 8) = BitVec.truncate 8 (v >>> 8 >>> 8) := by bv_decide
+  have e3 : BitVec.truncate 8 (BitVec.signExtend 64 (BitVec.truncate 32 v) >>> 8 >>> 8 >>> 8) = BitVec.truncate 8 (v >>> 8 >>> 8 >>> 8) := by bv_decide
+  rw [e0, e1, e2, e3]
+
+/-- sign-extended imm8: congruent to the value modulo every operand size -/
+theorem sext8_mod (x : BitVec 64) (h : isInt8of64 x = true) :
+    sextNat (x.truncate 8 : BitVec 8).toNat 8 % ((2 ^ 64 : Nat) : Int) = ((x.toNat % 2 ^ 64 : Nat) : Int) ∧
+    sextNat (x.truncate 8 : BitVec 8).toNat 8 % ((2 ^ 32 : Nat) : Int) = ((x.toNat % 2 ^ 32 : Nat) : Int) ∧
+    sextNat (x.truncate 8 : BitVec 8).toNat 8 % ((2 ^ 16 : Nat) : Int) = ((x.toNat % 2 ^ 16 : Nat) : Int) := by
+  have hb : x ≤ 127#64 ∨ x ≥ 0xFFFFFFFFFFFFFF80#64 := by simp only [isInt8of64] at h; bv_decide
+  simp only [sextNat, BitVec.truncate, BitVec.toNat_setWidth]
+  have hlt := x.isLt
+  simp only [Nat.reducePow, Nat.reduceSub] at *
+  rcases hb with hb | hb
+  · have : x.toNat ≤ 127 := by simpa [BitVec.le_def] using hb
+    refine ⟨?_, ?_, ?_⟩ <;> split <;> omega
+  · have : x.toNat ≥ 18446744073709551488 := by simpa [BitVec.le_def] using hb
+    refine ⟨?_, ?_, ?_⟩ <;> split <;> omega
+
+/-- sign-extended imm32 under REX.W -/
+theorem sext32_mod (x : BitVec 64) (h : isInt32of64 x = true) :
+    sextNat (x.toNat % 2 ^ 32) 32 % ((2 ^ 64 : Nat) : Int) = ((x.toNat % 2 ^ 64 : Nat) : Int) := by
+  have hb : x ≤ 0x7FFFFFFF#64 ∨ x ≥ 0xFFFFFFFF80000000#64 := by simp only [isInt32of64] at h; bv_decide
+  simp only [sextNat]
+  have hlt := x.isLt
+  simp only [Nat.reducePow, Nat.reduceSub] at *
+  rcases hb with hb | hb
+  · have : x.toNat ≤ 2147483647 := by simpa [BitVec.le_def] using hb
+    split <;> omega
+  · have : x.toNat ≥ 18446744071562067968 := by simpa [BitVec.le_def] using hb
+    split <;> omega
+
+/-- the immediate conditions of the monitor, from the two alternatives it evaluates (plain little-endian bytes, or a sign-extended value
+compared modulo the operand size) -/
+theorem immConds_ok (ctx : Spec.X86.Ctx) (rule : Rule) (p : Parsed) (f3 : FormOp) (v : BitVec 64)
+    (hf3 : f3.role = .imm) (hnb : immBitsOf f3 ≠ 4) (hrev : rule.immRev = false)
+    (h : (if immSignOf f3 == 1 && rule.oszEff != 0 && 8 * immBytesOf (immBitsOf f3) < rule.oszEff then
+            decide (sextNat (leNat (p.imm.take (immBytesOf (immBitsOf f3)))) (8 * immBytesOf (immBitsOf f3)) % ((2 ^ rule.oszEff : Nat) : Int) =
+                    ((v.toNat % 2 ^ rule.oszEff : Nat) : Int))
+          else p.imm.take (immBytesOf (immBitsOf f3)) == leBytes v.toNat (immBytesOf (immBitsOf f3))) = true) :
+    allOk (opConds ctx rule p 0 f3 (.imm v)).1 = true := by
+  have hnb' : (immBitsOf f3 == 4) = false := by simpa using hnb
+  simp only [opConds, hf3, hnb', hrev, Bool.false_eq_true, ↓reduceIte, List.drop]
+  split
+  · rename_i hc
+    simp only [hc, ↓reduceIte, decide_eq_true_eq] at h
+    simp [allOk]
+    push_cast at h
+    exact h
+  · rename_i hc
+    simp only [hc, Bool.false_eq_true, ↓reduceIte] at h
+    simp [allOk, h]
+
+/-- shape [rm, imm] with digit `d`, register of a 16 / 32 / 64-bit kind, ANY immediate the monitor's immediate conditions accept -/
+theorem rmImm_formOk (ctx : Spec.X86.Ctx) (rule : Rule) (opcode d r0 : BitVec 32) (k0 : RegKind) (f0 f3 : FormOp) (v imm1 : BitVec 64) (isz : Nat)
+    (hm64 : ctx.mode64 = true) (hmode : (rule.modes &&& 2 != 0) = true) (hopc : opcode &&& 0xF7801C00#32 = 0#32)
+    (hk0 : PlainKind k0) (hd : d < 8#32) (h0 : r0 < 16#32)
+    (R : LegRuleD rule isz ((opcode >>> 21) &&& 3#32).toNat d.toNat) (A : LegAgree rule opcode)
+    (hr0 : f0.role = .rm)
+    (hic : ∀ p : Parsed, p.imm = emitImmediate imm1 isz → allOk (opConds ctx rule p 0 f3 (.imm v)).1 = true)
+    (hal : alignOps rule.oszEff rule.ops [.reg k0 r0.toNat, .imm v] = some [(f0, some (.reg k0 r0.toNat)), (f3, some (.imm v))]) :
+    ∃ bytes, emitX86R opcode 0#32 d r0 imm1 isz = .ok bytes ∧ formOk ctx rule [.reg k0 r0.toNat, .imm v] {} bytes = true := by
+  have hok : ¬ (extractRex opcode 0#32 ||| ((d &&& 8#32) >>> 1) ||| ((r0 &&& 8#32) >>> 3)) > 0x80#32 := by
+    simp only [extractRex]; bv_decide
+  obtain ⟨bytes, p, hb', hp, P, hR, hB, hi, hrex, hvk⟩ := x86R_parsedO rule opcode 0#32 d r0 imm1 isz hopc (by decide) (by bv_decide) h0 hok d.toNat R A
+  refine ⟨bytes, hb', ?_⟩
+  refine leg_rm_imm_formOkG ctx rule p _ _ _ d.toNat isz k0 f0 f3 _ v (by simpa [hm64] using hmode) R
+    (by simpa [BitVec.lt_def] using hd) (modrmRR_reg d r0 hd) hr0 (hic p hi) ?_ hal (by rw [hm64]; exact hp) P
+  rw [hB]
+  exact regOkB_plain k0 _ _ p hk0 rfl
+
 end AsmjitVerif.Props.C01
